@@ -61,6 +61,7 @@ WITNESSES = [
 ]
 
 
+_COLORS = "public enum Color { Red, Green, Shade(Int) }\nenum Hidden { Secret }\npublic fun show(c: Color): String {\n  match c {\n    Red => \"red\"\n    Green => \"green\"\n    Shade(n) => \"shade \" ^ string_repr(n)\n  }\n}\n"
 _UTIL = "public fun helper(): Int { 10 }\nfun inner(): Int { 11 }\n"
 _SHAPES = ("import \"./util.gdn\" as util\nenum Shape { Circle, Square(Int) }\npublic fun area(n: Int): Int { n * util::helper() }\nfun secret(): Int { 2 }\n")
 PROJECTS = [
@@ -93,6 +94,17 @@ PROJECTS = [
      "check_contains": ["util"], "run_contains": ["not marked as"]},
     {"what": "a public fun that uses its file's private items", "files": {"util.gdn": _UTIL, "shapes.gdn": _SHAPES, "main.gdn": "import \"./shapes.gdn\" as shapes\nprintln(string_repr(shapes::area(2)))\n"}, "main": "main.gdn",
      "run_contains": ["20"], "check_not_contains": ["Error"]},
+    # a public enum: its variants and constructors are definitions the file marks public
+    {"what": "a variant of a public enum reached through an alias", "files": {"colors.gdn": _COLORS, "main.gdn": "import \"./colors.gdn\" as colors\nprintln(colors::show(colors::Red))\nprintln(colors::show(colors::Shade(3)))\n"}, "main": "main.gdn",
+     "run_contains": ["red", "shade 3"], "check_not_contains": ["Error", "Red", "Shade"]},
+    {"what": "a variant of a public enum through an unqualified import", "files": {"colors.gdn": _COLORS, "main.gdn": "import \"./colors.gdn\"\nprintln(show(Red))\nprintln(show(Shade(4)))\n"}, "main": "main.gdn",
+     "run_contains": ["red", "shade 4"], "check_not_contains": ["Error", "Red", "Shade"]},
+    {"what": "a variant of a non-public enum next to a public one, through an alias", "files": {"colors.gdn": _COLORS, "main.gdn": "import \"./colors.gdn\" as colors\nprintln(string_repr(colors::Secret))\n"}, "main": "main.gdn",
+     "check_contains": ["Secret"], "run_contains": ["not marked as"]},
+    {"what": "a variant of a non-public enum next to a public one, unqualified", "files": {"colors.gdn": _COLORS, "main.gdn": "import \"./colors.gdn\"\nprintln(string_repr(Secret))\n"}, "main": "main.gdn",
+     "check_contains": ["Secret"], "run_not_contains": ["Secret\n"]},
+    {"what": "an enum made public first and redefined non-public later", "files": {"colors.gdn": "public enum Color { Red }\nenum Color { Red }\n", "main.gdn": "import \"./colors.gdn\" as colors\nprintln(string_repr(colors::Red))\n"}, "main": "main.gdn",
+     "check_contains": ["Red"], "run_contains": ["not marked as"]},
 ]
 BOUNDED = [
     {"name": "import_projects", "kind": "project-corpus", "props": ["C34"], "input": PROJECTS, "n_inputs": len(PROJECTS),
@@ -206,6 +218,60 @@ def build(tier):
         u.emit(ln_text, Tag("repo", fn=gname, repo_file=EV, repo_line=ln_no, props=props))
     u.emit("    e", Tag("glue", fn=gname, props=props))
     u.emit("}", Tag("repo", fn=gname, repo_file=EV, repo_line=line0, props=props))
+    # ---- the variants of an enum: after every item is loaded, each variant becomes a value of the namespace; the
+    # variants of a public enum are exported, those of any other enum are not (a later non-public redefinition wins)
+    vk = None
+    for k in idx:
+        if toks[k].text == "for" and k > end and re.match(r"for\s*\(\s*variant_idx\s*,\s*variant_sym\s*\)\s+in\s+enum_info\s*\.\s*variants",
+                                                       src.text[toks[k].start:toks[k].start + 120]):
+            vk = k
+            break
+    span2 = (0, 0)
+    if vk is None:
+        raise ExtractError("the loop over `enum_info.variants` after the per-item match was not found in load_toplevel_items_")
+    ob = vk
+    while toks[ob].text != "{":
+        ob += 1
+    sl2 = exportslice.ExportSlicer(src)
+    cb = sl2.close(ob)
+    sl2.block(ob + 1, cb, "    ")
+    span2 = (toks[ob].start, toks[cb].end)
+    g2 = "slice_load_enum_variant"
+    u.fn_props[g2] = props
+    u.safety_props[g2] = props
+    u.items.append({"name": "load_toplevel_items_ (export slice of the loop that makes the variants of an enum values)", "generated_as": g2, "kind": "slice",
+                    "where": host.where, "sha256_16": host.sha(), "skeleton": "-"})
+    l2 = src.line_of(toks[vk].start)
+    u.skeletons[g2] = skeleton_hash(src.text[toks[vk].start:toks[cb].end])
+    u.raw("#[verifier::exec_allows_no_decreases_clause]", fn=g2, props=props)
+    u.emit("pub fn %s(vis: Vis) -> (e: u8)" % g2, Tag("repo", fn=g2, repo_file=EV, repo_line=l2, props=props))
+    u.raw("    ensures", fn=g2, props=props)
+    for (name, text) in (("variant_of_a_public_enum_is_exported", "vis == Vis::Public ==> e == 1"),
+                         ("variant_of_another_enum_is_not_exported", "vis == Vis::%s ==> e == 2" % private)):
+        oid = "exports.%s.post[%s]" % (g2, name)
+        u.clauses.append((oid, props, text))
+        u.emit("        " + text + ",", Tag("contract", fn=g2, clause=oid, props=props))
+    u.emit("{", Tag("repo", fn=g2, repo_file=EV, repo_line=l2, props=props))
+    u.emit("    let mut e: u8 = 0;", Tag("glue", fn=g2, props=props))
+    for (ln_text, ln_no) in sl2.out:
+        u.emit(ln_text, Tag("repo", fn=g2, repo_file=EV, repo_line=ln_no, props=props))
+    u.emit("    e", Tag("glue", fn=g2, props=props))
+    u.emit("}", Tag("repo", fn=g2, repo_file=EV, repo_line=l2, props=props))
+    # every mention of exported_syms inside load_toplevel_items_ lies in one of the two slices
+    span1 = (toks[mk].start, toks[end - 1].end)
+    stray = [m.start() for m in re.finditer(r"\bexported_syms\b", host.text)
+             if not (span1[0] <= host.start + m.start() < span1[1] or span2[0] <= host.start + m.start() < span2[1])]
+    f2 = "load_toplevel_items_touches_exported_syms_only_in_the_slices"
+    u.fn_props[f2] = props
+    u.skeletons[f2] = skeleton_hash(host.text)
+    u.items.append({"name": "load_toplevel_items_ (mentions of exported_syms outside the two slices)", "generated_as": f2, "kind": "structural",
+                    "where": host.where, "sha256_16": host.sha(), "skeleton": u.skeletons[f2]})
+    oid = "exports.%s.post[no_mention_outside_the_slices]" % f2
+    u.clauses.append((oid, props, "stray == 0"))
+    u.emit("pub fn %s() -> (stray: u64)" % f2, Tag("repo", fn=f2, repo_file=EV, repo_line=host.line0, props=props))
+    u.raw("    ensures", fn=f2, props=props)
+    u.emit("        stray == 0,", Tag("contract", fn=f2, clause=oid, props=props))
+    u.emit("{ %d }" % len(stray), Tag("repo", fn=f2, repo_file=EV, repo_line=host.line0, props=props))
     # frame: no other writer of exported_syms anywhere in the crate
     repo_src = os.path.dirname(src.path)
     hits = other_writers(repo_src, src.path, (host.start, host.end))
